@@ -43,6 +43,33 @@ class VInst(V):
         self.fields = fields
 
 
+# constructors of the generated class's own event / exception types (python.py: _inner_class_code): a keyword argument means the
+# same as the positional one, so both spellings are one statement
+SIGNATURES = {"StateComputed": ["t", "time_id", "component_id", "state_component"],
+              "StepCompleted": ["dt", "t", "current_phase", "next_phase"], "StepFailed": ["t"],
+              "TransitionEvent": ["next_phase"], "StepError": ["condition", "message"]}
+
+
+class _CanonicalCalls(pyast.NodeTransformer):
+    def visit_Call(self, node):
+        self.generic_visit(node)
+        f = node.func
+        name = f.attr if isinstance(f, pyast.Attribute) else f.id if isinstance(f, pyast.Name) else None
+        sig = SIGNATURES.get(name)
+        if sig and node.keywords and all(k.arg in sig for k in node.keywords) and not any(isinstance(a, pyast.Starred) for a in node.args):
+            given = {sig[i]: a for i, a in enumerate(node.args) if i < len(sig)}
+            if len(node.args) <= len(sig) and not (set(given) & {k.arg for k in node.keywords}):
+                given.update({k.arg: k.value for k in node.keywords})
+                if all(p in given for p in sig[:len(given)]):
+                    node.args = [given[p] for p in sig[:len(given)]]
+                    node.keywords = []
+        return node
+
+
+def _dump(tree):
+    return pyast.dump(_CanonicalCalls().visit(tree))
+
+
 def tree_of(lines, prefix=(), suffix=()):
     """parse `prefix + lines + suffix` as the body of a generator function; -> ast dump or an error string"""
     body = list(prefix) + list(lines) + list(suffix)
@@ -58,7 +85,7 @@ def tree_of(lines, prefix=(), suffix=()):
     if len(src) == 1:
         src.append("    pass")
     try:
-        return pyast.dump(pyast.parse("\n".join(src)))
+        return _dump(pyast.parse("\n".join(src)))
     except SyntaxError as ex:
         return "SyntaxError: %s in %r" % (ex, src)
 
